@@ -189,6 +189,10 @@ func runC11(tb ev.TB, p c11Prog) ev.Result {
 	var result []iface.IPFSLogEntry
 	var order []string
 	coll.ReplayAnnotation("completion_order", &order)
+	fetchIO := w.IO
+	if p.Replica%2 == 1 && world.Codec(w.Prog.Codec) == world.CodecDefault {
+		fetchIO = nil // the fetcher then uses the default codec by itself
+	}
 	res := loadsim.Run(w.Store, loadsim.Options{
 		Schedule: p.Schedule,
 		Order:    order,
@@ -207,7 +211,7 @@ func runC11(tb ev.TB, p c11Prog) ev.Result {
 			Concurrency:   p.Concurrency,
 			Timeout:       timeout,
 			ShouldExclude: shouldExclude,
-			IO:            w.IO,
+			IO:            fetchIO,
 		})
 	})
 	coll.Annotate("completion_order", res.Released)
